@@ -94,10 +94,10 @@ def _candidates(f: Func, loop: ast.While) -> list[tuple[str, str]]:
             l = lin(n.slice)
             if l is not None and l[0] is not None and l[0] in stored:
                 add(l[0], f"used as the index of `{U(n)[:50]}` (running off the sequence raises and leaves the loop)")
-        if isinstance(n, ast.Call) and isinstance(n.func, ast.Attribute) and n.func.attr in ("index",) and len(n.args) >= 2:
+        if isinstance(n, ast.Call) and isinstance(n.func, ast.Attribute) and n.func.attr in ("index", "find") and len(n.args) >= 2:
             l = lin(n.args[1])
             if l is not None and l[0] is not None and l[0] in stored:
-                add(l[0], f"start of the search `{U(n)[:50]}` (ValueError leaves the loop)")
+                add(l[0], f"start of the search `{U(n)[:50]}` (not found: ValueError / the -1 test leaves the loop)")
     return out
 
 
@@ -131,6 +131,20 @@ class _GhostProblem(FactsProblem):
             for (g, v) in self.ghosts[n.id]:
                 z.kill(g)
                 z.add_eq(g, v, 0)
+        if z is not None and n.kind == "test" and label in ("T", "F") and isinstance(n.ast, ast.Compare) and len(n.ast.ops) == 1 \
+                and isinstance(n.ast.left, ast.Name):
+            # x = S.find(sub, lo) ... `x == -1` / `x < 0` failed (or `x != -1` / `x >= 0` held): found, so x >= lo
+            x, op, rhs = n.ast.left.id, n.ast.ops[0], n.ast.comparators[0]
+            from ..syn import const_int
+            cv = const_int(rhs)
+            found = (cv == -1 and ((isinstance(op, ast.Eq) and label == "F") or (isinstance(op, (ast.NotEq, ast.Gt)) and label == "T"))) or \
+                    (cv == 0 and ((isinstance(op, ast.Lt) and label == "F") or (isinstance(op, ast.GtE) and label == "T")))
+            if found:
+                pre = x + " :find: "
+                for (t, pol) in list(state.preds):
+                    if pol and t.startswith(pre):
+                        lo_t, lo_k = t[len(pre):].rsplit("|", 1)
+                        z.add(lo_t, x, -int(lo_k))
         return z
 
     def transfer_stmt(self, z: Facts, s: ast.AST) -> None:
@@ -141,6 +155,12 @@ class _GhostProblem(FactsProblem):
             lo = lin(s.value.args[1])
             if lo is not None and T(lo[0]) != s.targets[0].id:
                 z.add(T(lo[0]), s.targets[0].id, -lo[1])
+        if isinstance(s, ast.Assign) and len(s.targets) == 1 and isinstance(s.targets[0], ast.Name) and isinstance(s.value, ast.Call) \
+                and isinstance(s.value.func, ast.Attribute) and s.value.func.attr == "find" and len(s.value.args) >= 2:
+            lo = lin(s.value.args[1])
+            if lo is not None and lo[0] is not None and lo[0] != s.targets[0].id:
+                # remembered until x or the start term is written: -1, or a position at or after the start
+                z.preds.add((f"{s.targets[0].id} :find: {lo[0]}|{lo[1]}", True))
 
 
 def _contract_calls(c: Ctx, f: Func, loop: ast.While) -> list[tuple[ast.Call, str]]:
@@ -340,9 +360,8 @@ def rule_loopvar(c: Ctx) -> RuleResult:
             moving = [n for n in ast.walk(loop) if isinstance(n, ast.Assign) and isinstance(n.value, ast.Call) and isinstance(n.value.func, ast.Name)
                       and n.value.func.id == "len" and any(isinstance(x, ast.Name) and x.id == U(n.targets[0]) for x in ast.walk(loop.test))]
             if f.module.rel == "rules_core/smartquotes.py" and moving and any(
-                    isinstance(n, ast.Assign) and isinstance(n.value, ast.BinOp) and any(
-                        isinstance(x, ast.Call) and isinstance(x.func, ast.Attribute) and x.func.attr == "start" for x in ast.walk(n.value))
-                    and any(isinstance(x, ast.Constant) and x.value == 1 for x in ast.walk(n.value)) for n in loop.body):
+                    isinstance(x, ast.Call) and isinstance(x.func, ast.Attribute) and x.func.attr == "start" for x in ast.walk(loop)) and any(
+                    isinstance(x, ast.Call) and isinstance(x.func, ast.Attribute) and x.func.attr == "search" for x in ast.walk(loop)):
                 r.add(key, where, f.short, f"while {U(loop.test)[:60]}", "exempt", EXEMPT_QUOTES)
                 continue
             bad = []
